@@ -308,7 +308,13 @@ def main(argv=None):
     def _norm(n):
         return re.sub(r'@\d+', '@', n)
     have = {_norm(n) for n in names}
-    vanished = sorted(n for n in base if _norm(n) not in have) if base else []
+    # only obligations that stem from a labelled clause of the contract text (ensures / invariant / assert) must keep
+    # existing: safety, precondition and frame obligations belong to sites of the code and legitimately move or
+    # disappear when code is moved into a helper or removed
+    def _from_clause(n):
+        k = n.split('#', 1)[-1]
+        return k.startswith('ensures:') or k.startswith('invariant:') or k.startswith('assert:')
+    vanished = sorted(n for n in base if _from_clause(n) and _norm(n) not in have) if base else []
 
     # ------------------------------------------------------------------ known findings
     known = [k for k in load_known(os.path.join(VERIF, 'known_findings.json')) if k.get('property') == prop and k.get('status') == 'open']
